@@ -324,8 +324,7 @@ contract('schema.BaseParser.loadComponent', params={'src': 'str'},
 # ---- <schema> element: creation or extension of the schema, inheritance of key type / datatype (C11) ---------------------
 MODELS['schema.SchemaParser'].fields.update({'_base_keytypes': 'Seq[Fun[kt]]', '_base_datatypes': 'Seq[Opt[Fun[sdt]]]',
                                              '_descriptions': 'Seq[str]'})
-assumed('str.split', params={'self': 'str'}, returns='Seq[str]', pure=True,
-        notes='str.split(): the whitespace-separated words')
+import contracts.datatypes      # str.split (assumed)
 SP_MOD = ['self._base_keytypes', 'self._base_datatypes', 'self._descriptions',
           'self._extending_parser._base_keytypes', 'self._extending_parser._base_datatypes']
 KT_DECL = 'sect_kt(attrs, None)'
